@@ -11,4 +11,5 @@ let () =
   | _ :: "store" :: path :: _ -> D_store.run path
   | _ :: "static" :: path :: _ -> D_static.run path
   | _ :: "spec" :: path :: _ -> D_spec.run path
+  | _ :: ("satobj" | "dimacs" | "reply" | "pipe" as m) :: path :: _ -> D_satobj.run m path argv
   | _ -> prerr_endline "usage: driver <mode> <cases-file> [--thr N]"; exit 2
